@@ -295,6 +295,26 @@ fn insert_parsed_items_into_schema(
     }
 
     for (abstract_parent_entity_name, concrete_child_entity_names) in supertype_to_subtype_map {
+        if !schema
+            .item
+            .contains_key(abstract_parent_entity_name.reference())
+        {
+            // e.g. `type Foo implements Bar`, where Bar is not defined
+            schema.non_fatal_diagnostics.push(Diagnostic::new(
+                format!(
+                    "`{abstract_parent_entity_name}` is implemented by or has the members {}, \
+                    but it is not defined.",
+                    concrete_child_entity_names
+                        .iter()
+                        .map(|name| format!("`{name}`"))
+                        .collect::<Vec<_>>()
+                        .join(", ")
+                ),
+                None,
+            ));
+            continue;
+        }
+
         let typename_entity_name = format!("{}__discriminator", abstract_parent_entity_name)
             .intern()
             .to::<EntityName>()
